@@ -849,6 +849,12 @@ func sameDump(a, b []tokDump) (bool, string) {
 	return true, ""
 }
 
+// drainLexerPool empties the lexer pool (sync.Pool drops its contents after two GCs).
+func drainLexerPool() {
+	runtime.GC()
+	runtime.GC()
+}
+
 // freshLex lexes input with a lexer that was not used before (pool drained by two GCs).
 func freshLex(input []byte) (d []tokDump, lexErr string) {
 	runtime.GC()
@@ -869,6 +875,8 @@ func freshLex(input []byte) (d []tokDump, lexErr string) {
 func poolOnce(prev, input []byte, consume int, want []tokDump, wantErr string) (f *c37Finding, reused bool) {
 	runtime.LockOSThread()
 	defer runtime.UnlockOSThread()
+	// The pool is empty on entry (see below), so the lexer that serves `input`
+	// has exactly the history [prev]: the case replays on its own.
 	ts1, _ := lexer.Lex(prev, nil)
 	if ts1 != nil {
 		if consume < 0 {
@@ -889,7 +897,10 @@ func poolOnce(prev, input []byte, consume int, want []tokDump, wantErr string) (
 	if ts2 != nil {
 		reused = ts1 == ts2
 		got = dumpTokens(lexTokens(ts2, 1<<20))
-		ts2.Reclaim()
+		// ts2 is deliberately not reclaimed: the pool stays empty for the next pair
+		if !reused {
+			drainLexerPool()
+		}
 	}
 	if gotErr != wantErr {
 		return &c37Finding{"lex|history-dependent-error", fmt.Sprintf("lexing %q after %q returns error %q, fresh: %q", input, prev, gotErr, wantErr)}, reused
@@ -898,6 +909,12 @@ func poolOnce(prev, input []byte, consume int, want []tokDump, wantErr string) (
 		return &c37Finding{"lex|history-dependent-tokens", fmt.Sprintf("lexing %q after %q (consumed %d) differs from a fresh lex: %s", input, prev, consume, d)}, reused
 	}
 	return nil, reused
+}
+
+// takeLexerOut removes the most recently reclaimed lexer from the pool (it is not given back).
+func takeLexerOut() {
+	ts, _ := lexer.Lex(nil, nil)
+	_ = ts
 }
 
 // parseHistoryOnce: ParseProgram(input) after ParseProgram(prev) equals a fresh ParseProgram(input).
@@ -1177,6 +1194,7 @@ func runC37(env *mc.Env) {
 		for i, b := range ins {
 			fresh[i], freshErr[i] = freshLex(b)
 		}
+		drainLexerPool()
 		for _, a := range ins {
 			for bi, b := range ins {
 				for _, consume := range []int{-1, 0, 1, 2} {
@@ -1192,8 +1210,11 @@ func runC37(env *mc.Env) {
 				}
 				// parser level: parse b after parsing a equals a fresh parse of b
 				want := parseDump(b)
+				takeLexerOut() // the parser reclaimed its lexer: remove it, so that the history below is [a, b]
 				parseDump(a)
-				if got := parseDump(b); got != want {
+				got := parseDump(b)
+				takeLexerOut()
+				if got != want {
 					violation(env, "parse|history-dependent", c37Case{Kind: "pool", Prev: a, Input: b, Consume: -2},
 						fmt.Sprintf("parsing %q after %q differs from parsing it first", b, a))
 				}
@@ -1241,8 +1262,10 @@ func replayC37(env *mc.Env, raw json.RawMessage) (bool, string) {
 		}
 		return false, class
 	case "pool":
+		drainLexerPool()
 		if c.Consume == -2 {
 			want := parseDump(c.Input)
+			drainLexerPool()
 			parseDump(c.Prev)
 			return parseDump(c.Input) != want, "parse history"
 		}
